@@ -23,7 +23,13 @@ RULE = (
     "requested settings once each; coordinates = sorted union per case "
     "argument then the grid values; requested cells hold the recorded result, "
     "every other cell satisfies the all-missing placeholder predicate (NaN, "
-    "None for bool/str, same length/shape as a real result).  Non-trivial = "
+    "None for bool/str, same length/shape as a real result).  Phase "
+    "mixed-types: one case argument takes numbers and strings (axis order "
+    "unspecified there): call log, number of slots, and the multiset of "
+    "non-placeholder slots == the requested settings' results.  Phase "
+    "runner-history: 2-4 run_cases / harvest_cases calls on ONE Runner / "
+    "Harvester, some with a per-call sub-grid: each call runs exactly its own "
+    "settings and its dataset has exactly its own dimensions.  Non-trivial = "
     ">=2 case arguments and the union grid strictly larger than the case set."
 )
 ASSUMPTIONS = [
@@ -255,7 +261,157 @@ def strategy(draw):
     return case
 
 
+# ------------------------------------------------- mixed value families
+
+def _leaves(obj, depth):
+    if depth == 0:
+        return [obj]
+    out = []
+    for o in obj:
+        out += _leaves(o, depth - 1)
+    return out
+
+
+def run_mixed(case):
+    """One case argument takes numbers AND strings (e.g. level in {2, 4,
+    'auto'}).  Such values cannot be sorted, so the ORDER of that axis is
+    unspecified; what the property still fixes - and what is checked - is
+    that exactly the requested settings are run, that the nested result has
+    one slot per element of the union grid, and that the slots hold exactly
+    the requested settings' results (as a multiset) and placeholders
+    elsewhere."""
+    x = xyz()
+    cargs, cases = case["args"], case["cases"]
+    models.LOG.clear()
+    fn = functools.partial(models.record_fn, _xv=("int", None))
+    dcs = [dict(zip(cargs, c)) for c in cases]
+    with under_test("combo_runner(cases= mixed value types)"):
+        if case["via"] == "combo_runner":
+            got = x.combo_runner(fn, None, cases=dcs, verbosity=0)
+        else:
+            got = x.combo_runner(fn, None, cases=dcs, verbosity=0,
+                                 shuffle=case.get("shuffle", False))
+    exp = [models.canon_kw(dict(zip(cargs, c))) for c in cases]
+    calls = models.read_log(None)
+    require(collections.Counter(calls) == collections.Counter(exp),
+            "call-log", lambda: f"calls {calls!r:.300} vs requested "
+                                f"{exp!r:.300}")
+    sizes = [len({(type(c[i]).__name__, c[i]) for c in cases})
+             for i in range(len(cargs))]
+    try:
+        leaves = _leaves(got, len(cargs))
+    except TypeError:
+        core.violated("grid-shape", f"result is not {len(cargs)} levels "
+                                    f"deep: {got!r:.300}")
+    total = 1
+    for s_ in sizes:
+        total *= s_
+    require(len(leaves) == total, "grid-shape",
+            f"{len(leaves)} slots for a union grid of {sizes}")
+    want = collections.Counter(
+        models.result_of("int", dict(zip(cargs, c))) for c in cases)
+    real = [l for l in leaves
+            if models.placeholder_problem(l, 0) is not None]
+    require(collections.Counter(real) == want, "requested-cell-wrong",
+            lambda: f"the slots hold the results "
+                    f"{sorted(map(repr, real))!r:.300}; the requested "
+                    f"settings give {sorted(map(repr, want.elements()))!r:.300}")
+    return {"nontrivial": len(cargs) >= 2 and total > len(cases),
+            "classes": ["mixed-value-types", f"case_args={len(cargs)}"]}
+
+
+@st.composite
+def mixed_strategy(draw):
+    n = draw(st.integers(1, 3))
+    args = draw(st.lists(st.sampled_from(gens.ARG_NAMES), min_size=n,
+                         max_size=n, unique=True))
+    pools = [[1, 2, 4, "auto", "x", 2.5]] + \
+        [draw(st.sampled_from([[0, 1, 2], ["p", "q"], [3, "none", 7]]))
+         for _ in range(n - 1)]
+    cases = draw(st.lists(st.tuples(*[st.sampled_from(p) for p in pools]),
+                          min_size=2, max_size=6, unique=True))
+    return {"args": args, "cases": [list(c) for c in cases],
+            "via": draw(st.sampled_from(["combo_runner", "shuffled"])),
+            "shuffle": draw(st.sampled_from([False, True, 5]))}
+
+
+# ----------------------------------------- several runs on one Runner object
+
+def run_history(case):
+    """A sub-grid (or anything else) given to ONE call must not reach the
+    next call on the same Runner / Harvester."""
+    x = xyz()
+    cargs = case["args"]
+    models.LOG.clear()
+    fn = functools.partial(models.record_fn, _xv=("int", None))
+    runner = x.Runner(fn, "out", fn_args=tuple(cargs + case["sub_names"]))
+    farmer = x.Harvester(runner) if case["harvester"] else runner
+    nsub = 0
+    for k, step in enumerate(case["steps"]):
+        cases = [tuple(c) for c in step["cases"]]
+        sub = step.get("subgrid") or []
+        nsub += bool(sub)
+        kw = {}
+        if sub:
+            kw["combos"] = {a: list(v) for a, v in sub} \
+                if step.get("sub_dict") else tuple((a, list(v))
+                                                   for a, v in sub)
+        models.LOG.clear()
+        with under_test(f"step {k}"):
+            if case["harvester"]:
+                farmer.harvest_cases(cases, fn_args=tuple(cargs),
+                                     overwrite=True, verbosity=0, **kw)
+                ds = farmer.last_ds
+            else:
+                ds = farmer.run_cases(cases, fn_args=tuple(cargs),
+                                      verbosity=0, **kw)
+        exp = []
+        for c in cases:
+            for sv in itertools.product(*[v for _, v in sub]):
+                kw_ = dict(zip(cargs, c))
+                kw_.update(zip([a for a, _ in sub], sv))
+                exp.append(models.canon_kw(kw_))
+        calls = models.read_log(None)
+        if collections.Counter(calls) != collections.Counter(exp):
+            ce, cg = collections.Counter(exp), collections.Counter(calls)
+            core.violated(
+                "call-log",
+                f"step {k}: {len(calls)} calls for {len(exp)} settings; "
+                f"missing {list((ce - cg).elements())[:3]}; unexpected "
+                f"{list((cg - ce).elements())[:3]}")
+        want_dims = set(cargs) | {a for a, _ in sub}
+        require(set(ds.dims) == want_dims, "dimensions",
+                f"step {k}: dataset dimensions {sorted(ds.dims)}, asked for "
+                f"{sorted(want_dims)}")
+    return {"nontrivial": nsub > 0 and len(case["steps"]) >= 2,
+            "classes": ["runner-history",
+                        "harvester" if case["harvester"] else "runner"]}
+
+
+@st.composite
+def history_strategy(draw):
+    cs = draw(gens.case_set(1, 2, 4))
+    rest = [n for n in gens.ARG_NAMES if n not in cs["args"]]
+    sub_names = draw(st.lists(st.sampled_from(rest), min_size=1, max_size=2,
+                              unique=True))
+    steps = []
+    for _ in range(draw(st.integers(2, 4))):
+        k = draw(st.integers(1, len(cs["cases"])))
+        step = {"cases": draw(st.permutations(cs["cases"]))[:k]}
+        if draw(st.booleans()):
+            step["subgrid"] = [[a, draw(gens.arg_values(1, 2, mixed=False))]
+                               for a in sub_names]
+            step["sub_dict"] = draw(st.booleans())
+        steps.append(step)
+    return {"args": cs["args"], "sub_names": sub_names, "steps": steps,
+            "harvester": draw(st.booleans())}
+
+
 PHASES = [
     Phase("cases", run_case, strategy=strategy,
           examples={"quick": 4000, "thorough": 200000}),
+    Phase("mixed-types", run_mixed, strategy=mixed_strategy,
+          examples={"quick": 600, "thorough": 20000}),
+    Phase("runner-history", run_history, strategy=history_strategy,
+          examples={"quick": 400, "thorough": 10000}),
 ]
